@@ -90,11 +90,13 @@ pub struct Sim {
     pub hashes: HashMap<[u8; 32], String>,
     pub n: u64,
     pub bh: solana_sdk::hash::Hash,
+    pub last_bh: std::time::Instant,
     pub lines: Vec<String>,
     pub defs: Vec<String>,
     pub tx_count: usize,
     pub ok_count: usize,
     pub kinds: HashMap<String, (usize, usize)>,
+    pub last: HashMap<K, String>,
 }
 
 fn rent(len: usize) -> u64 { (128 + len as u64) * 6960 }
@@ -126,11 +128,12 @@ impl Sim {
         let bh = ctx.last_blockhash;
         let mut hashes = HashMap::new();
         hashes.insert([0u8; 32], "null_hash".to_string());
-        let mut s = Sim { ctx, keys, hashes, n: id << 32, bh, lines: vec![], defs: vec![], tx_count: 0, ok_count: 0, kinds: HashMap::new() };
+        let mut s = Sim { ctx, keys, hashes, n: id << 32, bh, last_bh: std::time::Instant::now(), lines: vec![], defs: vec![], tx_count: 0, ok_count: 0, kinds: HashMap::new(), last: HashMap::new() };
         // the model starts from the empty world: introduce the fixtures as forge operations
         for (k, _) in init.iter() {
             let t = s.observe(k).await;
-            s.lines.push(format!("(OForge {} {}, true, [({}, {})])", k, t, k, t));
+            s.lines.push(format!("(OForge {} {}, true, [({}, Now {})])", k, t, k, t));
+            s.last.insert(k.clone(), t);
         }
         s.op(Op::Airdrop(K::User(UPGRADE_AUTHORITY), 10_000_000_000)).await;
         s.op(Op::Airdrop(K::User(MINT_AUTHORITY), 10_000_000_000)).await;
@@ -147,17 +150,31 @@ impl Sim {
     pub fn kterm(&mut self, p: &Pubkey) -> String { format!("{}", self.keys.k(p)) }
 
     async fn submit(&mut self, ixs: &[Instruction], signers: &[Keypair]) -> bool {
-        self.n += 1;
-        if self.n % 2000 == 0 { self.bh = self.ctx.get_new_latest_blockhash().await.unwrap(); }
-        let payer = self.ctx.payer.insecure_clone();
-        let mut all = ixs.to_vec();
-        // uniqueness: the isolated fee payer sends itself a running counter
-        all.push(solana_system_interface::instruction::transfer(&payer.pubkey(), &payer.pubkey(), self.n & 0xffff_ffff));
-        let msg = match Message::try_compile(&payer.pubkey(), &all, &[], self.bh) { Ok(m) => m, Err(_) => return false };
-        let mut s: Vec<&Keypair> = vec![&payer];
-        for k in signers { s.push(k); }
-        let tx = match VersionedTransaction::try_new(VersionedMessage::V0(msg), &s) { Ok(t) => t, Err(_) => return false };
-        self.ctx.banks_client.process_transaction(tx).await.is_ok()
+        for attempt in 0..4 {
+            self.n += 1;
+            if attempt > 0 || self.n % 64 == 0 || self.last_bh.elapsed().as_secs() >= 8 {
+                self.bh = self.ctx.get_new_latest_blockhash().await.unwrap();
+                self.last_bh = std::time::Instant::now();
+            }
+            let payer = self.ctx.payer.insecure_clone();
+            let mut all = ixs.to_vec();
+            // uniqueness: the isolated fee payer sends itself a running counter
+            all.push(solana_system_interface::instruction::transfer(&payer.pubkey(), &payer.pubkey(), self.n & 0xffff_ffff));
+            let msg = match Message::try_compile(&payer.pubkey(), &all, &[], self.bh) { Ok(m) => m, Err(_) => return false };
+            let mut s: Vec<&Keypair> = vec![&payer];
+            for k in signers { s.push(k); }
+            let tx = match VersionedTransaction::try_new(VersionedMessage::V0(msg), &s) { Ok(t) => t, Err(_) => return false };
+            match self.ctx.banks_client.process_transaction(tx).await {
+                Ok(()) => return true,
+                Err(solana_program_test::BanksClientError::TransactionError(e)) => {
+                    use solana_sdk::transaction::TransactionError as TE;
+                    match e { TE::BlockhashNotFound | TE::AlreadyProcessed => continue, _ => return false }
+                }
+                Err(solana_program_test::BanksClientError::SimulationError { .. }) => return false,
+                Err(_) => continue,   // transport / server trouble (e.g. expired blockhash inside the server): retry with a fresh blockhash
+            }
+        }
+        panic!("harness infrastructure failure: the bank did not answer a transaction after 4 attempts");
     }
 
     /// decode one account into a Gallina `acct` term
@@ -329,7 +346,8 @@ d_relay := {}; d_calc_allowed_ts := {}; d_distributed_2z := {}; d_burned_2z := {
                 let st: Vec<String> = signers.iter().map(|k| format!("{}", k)).collect();
                 let ok = if wf { self.submit(&real, &kps).await } else { false };
                 self.tx_count += 1; if ok { self.ok_count += 1; }
-                for ix in ixs { let kind = ix.term.split(|c: char| c == ' ' || c == ')').take(3).collect::<Vec<_>>().join(" ");
+                for ix in ixs { let kind: String = ix.term.replace("(IxRd (", "").replace("(IxPassport (", "P:").replace("(IxSwap (", "S:").replace("(IxRogueCpi ", "viaCPI:")
+                        .split(|c: char| c == ' ' || c == ')').find(|x| !x.is_empty()).unwrap_or("?").trim_start_matches('(').to_string();
                     let e = self.kinds.entry(kind).or_insert((0, 0)); if ok { e.0 += 1 } else { e.1 += 1 } }
                 (format!("OTx {{| tx_signers := [{}]; tx_ixs := [{}] |}}", st.join("; "), terms.join("; ")), ok)
             }
@@ -377,7 +395,11 @@ d_relay := {}; d_calc_allowed_ts := {}; d_distributed_2z := {}; d_burned_2z := {
             }
         };
         let mut post = vec![];
-        for k in keys { let t = self.observe(&k).await; post.push(format!("({}, {})", k, t)); }
+        for k in keys {
+            let t = self.observe(&k).await;
+            if self.last.get(&k) == Some(&t) { post.push(format!("({}, Same)", k)); }
+            else { post.push(format!("({}, Now {})", k, t)); self.last.insert(k, t); }
+        }
         self.lines.push(format!("({}, {}, [{}])", term, ok, post.join("; ")));
         ok
     }
